@@ -3,7 +3,6 @@ Spec: Batch.tla (+ Shapes.tla).  TLC enumerates every (parameter batch P, data b
 sizes {1,2,3}, checks the broadcasting algebra and the code-shaped parameter alignments, and dumps for every broadcastable
 triple every output element b with its replica indices; the replay compares element b of the batched object with the
 non-batched replica (parameter slice p applied to data slices d1, d2)."""
-import itertools
 import os
 import zlib
 from concurrent.futures import ThreadPoolExecutor
@@ -18,6 +17,12 @@ NTRAIN, NTEST, NIND, NUM_DATA = 5, 3, 3, 17
 KTOL = (1e-10, 1e-10)                        # kernels / means / likelihood: rtol, atol
 MTOL = (1e-7, 1e-9)                          # posterior / mll / elbo
 
+# Site families of Batch.tla whose REPAIRED arithmetic the model should transcribe.  Empty = the arithmetic of the pinned commit, for
+# which TLC predicts failures (MODEL-DRIFT lines) that the replay confirms.  When a fix lands in /repo add its family here so that the
+# model follows the code: "rq_alpha" (RQKernel.forward), "const_kernel" (ConstantKernel.forward), "call_diag" (Kernel.__call__ diag
+# heuristic), "multitask" (MultitaskKernel.forward repeat).
+REPAIRED = set(filter(None, os.environ.get("VERIF_C08_REPAIRED", "rq_alpha,const_kernel").split(",")))  # fix: commits for RQ alpha and ConstantKernel are in /repo
+
 SITES = ["lengthscale_x1", "lengthscale_x2", "outputscale_full", "outputscale_diag", "rq_alpha_full", "rq_alpha_diag",
          "constant_mean", "linear_mean_weights", "linear_mean_bias", "noise", "const_kernel_full", "const_kernel_diag",
          "var_inducing_values", "multitask_task_covar", "call_diag", "call_diag_nco", "call_diag_ignored"]
@@ -30,7 +35,7 @@ def write_cfg(workdir, name, sites, invariants):
     os.makedirs(workdir, exist_ok=True)
     cfg = os.path.join(workdir, "Batch_%s.cfg" % name)
     tlc.write_cfg(cfg, spec="Spec", constants={"Dims": {1, 2, 3}, "MaxRank": 2, "NPts": NPTS, "MPts": MPTS, "DFeat": DFEAT, "NCo": NCO,
-                                               "CheckSites": set(sites)}, invariants=invariants)
+                                               "CheckSites": set(sites), "Repaired": set(REPAIRED)}, invariants=invariants)
     return cfg
 
 
@@ -103,7 +108,7 @@ def kernel_catalogue():
     d = DFEAT
     S = torch.Size
     cat = {
-        # name: (factory(batch_shape), data kind, sites bound to the full modes, sites bound to the diag modes)
+        # name: (factory(batch_shape), data kind); @b = built with the batch shape, @1 = built without (shared by all batch elements)
         "RBF": (lambda B: K.RBFKernel(batch_shape=S(B)), "real"),
         "RBF_ARD": (lambda B: K.RBFKernel(ard_num_dims=d, batch_shape=S(B)), "real"),
         "Matern0.5_ARD": (lambda B: K.MaternKernel(nu=0.5, ard_num_dims=d, batch_shape=S(B)), "real"),
@@ -126,18 +131,18 @@ def kernel_catalogue():
         "Constant": (lambda B: K.ConstantKernel(batch_shape=S(B)), "real"),
         "Scale(RBF)": (lambda B: K.ScaleKernel(K.RBFKernel(batch_shape=S(B)), batch_shape=S(B)), "real"),
         "Scale(Matern2.5_ARD)": (lambda B: K.ScaleKernel(K.MaternKernel(nu=2.5, ard_num_dims=d, batch_shape=S(B)), batch_shape=S(B)), "real"),
-        "Scale[b](RBF[])": (lambda B: K.ScaleKernel(K.RBFKernel(), batch_shape=S(B)), "real"),
-        "Scale[](RBF[b])": (lambda B: K.ScaleKernel(K.RBFKernel(batch_shape=S(B))), "real"),
+        "Scale@b(RBF@1)": (lambda B: K.ScaleKernel(K.RBFKernel(), batch_shape=S(B)), "real"),
+        "Scale@1(RBF@b)": (lambda B: K.ScaleKernel(K.RBFKernel(batch_shape=S(B))), "real"),
         "RBF+Matern1.5": (lambda B: K.RBFKernel(batch_shape=S(B)) + K.MaternKernel(nu=1.5, batch_shape=S(B)), "real"),
-        "RBF[b]+Linear[]": (lambda B: K.RBFKernel(batch_shape=S(B)) + K.LinearKernel(), "real"),
+        "RBF@b+Linear@1": (lambda B: K.RBFKernel(batch_shape=S(B)) + K.LinearKernel(), "real"),
         "RBF*Periodic": (lambda B: K.RBFKernel(batch_shape=S(B)) * K.PeriodicKernel(batch_shape=S(B)), "real"),
         "Scale(Matern)+Scale(Linear)": (lambda B: K.ScaleKernel(K.MaternKernel(nu=2.5, ard_num_dims=d, batch_shape=S(B)), batch_shape=S(B))
                                         + K.ScaleKernel(K.LinearKernel(batch_shape=S(B)), batch_shape=S(B)), "real"),
         "Scale(RBF)*Scale(Cosine)": (lambda B: K.ScaleKernel(K.RBFKernel(batch_shape=S(B)), batch_shape=S(B))
                                      * K.ScaleKernel(K.CosineKernel(batch_shape=S(B)), batch_shape=S(B)), "real"),
         "Index": (lambda B: K.IndexKernel(num_tasks=3, rank=2, batch_shape=S(B)), "index"),
-        "Multitask(RBF[b],task[])": (lambda B: K.MultitaskKernel(K.RBFKernel(batch_shape=S(B)), num_tasks=2, rank=1), "real"),
-        "Multitask(RBF[b],task[b])": (lambda B: K.MultitaskKernel(K.RBFKernel(batch_shape=S(B)), num_tasks=2, rank=1, batch_shape=S(B)), "real"),
+        "Multitask(RBF@b,task@1)": (lambda B: K.MultitaskKernel(K.RBFKernel(batch_shape=S(B)), num_tasks=2, rank=1), "real"),
+        "Multitask(RBF@b,task@b)": (lambda B: K.MultitaskKernel(K.RBFKernel(batch_shape=S(B)), num_tasks=2, rank=1, batch_shape=S(B)), "real"),
         "LCM(RBF,Matern)": (lambda B: K.LCMKernel([K.RBFKernel(batch_shape=S(B)), K.MaternKernel(batch_shape=S(B))], num_tasks=2, rank=1), "real"),
         "Arc(Matern)": (lambda B: K.ArcKernel(K.MaternKernel(nu=2.5, batch_shape=S(B)), ard_num_dims=d, batch_shape=S(B)), "real"),
         "Cylindrical(Matern)": (lambda B: K.CylindricalKernel(3, K.MaternKernel(nu=2.5, batch_shape=S(B)), batch_shape=S(B)), "real"),
@@ -157,13 +162,13 @@ def kernel_sites(name, mode):
         s.append("call_diag_ignored")
     elif diag and not name.startswith(("Multitask", "LCM")):      # (their diagonal has n * num_tasks entries)
         s.append("call_diag_nco" if mode == "diag-n3" else "call_diag")
-    if name.startswith("RQ") and mode != "diag-self":             # (diag of k(x, x): the distance is 0 and alpha does not matter)
+    if name.startswith("RQ"):
         s.append("rq_alpha_diag" if diag else "rq_alpha_full")
     if name == "Constant":
         s.append("const_kernel_diag" if diag else "const_kernel_full")
     if "Scale" in name:
         s.append("outputscale_diag" if diag else "outputscale_full")
-    if name == "Multitask(RBF[b],task[b])":
+    if name == "Multitask(RBF@b,task@b)":
         s.append("multitask_task_covar")
     if any(t in name for t in ("RBF", "Matern", "RQ", "Periodic", "PiecewisePolynomial")):
         s += ["lengthscale_x1"] if diag else ["lengthscale_x1", "lengthscale_x2"]
@@ -171,7 +176,7 @@ def kernel_sites(name, mode):
 
 
 # quick tier: these kernels on every triple and every b, the others on a seeded 15% of the triples; thorough: all on all
-QUICK_FULL_KERNELS = ("Scale(Matern2.5_ARD)", "RQ", "Constant", "RBF[b]+Linear[]", "Multitask(RBF[b],task[b])")
+QUICK_FULL_KERNELS = ("Scale(Matern2.5_ARD)", "RQ", "Constant", "RBF@b+Linear@1", "Multitask(RBF@b,task@b)")
 
 
 # =============================================================================================
@@ -263,10 +268,11 @@ def _compare_elements(torch, out, case, ref_of, tol, what, index_key="b"):
 
 
 def _result(kind, name, mode, case, seed, outcome, detail, n, extra_case=None):
+    """one cell = (module, mode, triple).  Signature: C08/<kind>/<module>/<mode>/<rank class>/<widening class>/<raises|shape|values>"""
     key = [kind, name, mode, case["P"], case["D1"], case["D2"]]
     r = dict(key=key, ok=outcome is None, nontrivial=len(case["reps"]) >= 2, n=max(1, n))
     if outcome is not None:
-        r["sig"] = "C08/%s/%s/%s/%s/%s" % (kind, name, mode, _cls(case), outcome)
+        r["sig"] = "C08/%s/%s/%s/%s/%s" % (kind, name, mode, _cls(case) if kind != "modellist" else "members", outcome)
         r["detail"] = "%s %s %s [%s]: %s" % (kind, name, _tri(case), mode, detail)
         r["case"] = dict(kind=kind, name=name, mode=mode, seed=seed, case={k: v for k, v in case.items() if k != "pred"}, **(extra_case or {}))
     r["cell"] = (name, mode, tuple(case["P"]), tuple(case["D1"]), tuple(case["D2"]))
@@ -540,10 +546,10 @@ def exact_worker(item):
 # =============================================================================================
 def svgp_variants():
     from gpytorch import variational as V
-    return {"Cholesky/whitened": (V.CholeskyVariationalDistribution, V.VariationalStrategy),
-            "MeanField/whitened": (V.MeanFieldVariationalDistribution, V.VariationalStrategy),
-            "Cholesky/unwhitened": (V.CholeskyVariationalDistribution, V.UnwhitenedVariationalStrategy),
-            "Delta/whitened": (V.DeltaVariationalDistribution, V.VariationalStrategy)}
+    return {"Cholesky-whitened": (V.CholeskyVariationalDistribution, V.VariationalStrategy),
+            "MeanField-whitened": (V.MeanFieldVariationalDistribution, V.VariationalStrategy),
+            "Cholesky-unwhitened": (V.CholeskyVariationalDistribution, V.UnwhitenedVariationalStrategy),
+            "Delta-whitened": (V.DeltaVariationalDistribution, V.VariationalStrategy)}
 
 
 def _svgp_model(torch, variant, B, Z):
@@ -609,7 +615,8 @@ def svgp_worker(item):
             mb.eval(), lb.eval()
             q = mb(x)
             qm, qc = q.mean, q.covariance_matrix
-            kl = mb.variational_strategy.kl_divergence()
+            # the KL term has the batch shape of what it depends on (P when whitened, broadcast(P, D2) otherwise): read it against Out
+            kl = torch.broadcast_to(mb.variational_strategy.kl_divergence(), tuple(Out))
             mb.train(), lb.train()
             elbo = gpytorch.mlls.VariationalELBO(lb, mb, num_data=NUM_DATA)(mb(x), y)
             return qm, qc, kl, elbo
@@ -623,7 +630,7 @@ def svgp_worker(item):
                 return q.mean if which == 0 else q.covariance_matrix if which == 1 else mr.variational_strategy.kl_divergence()
             mr.train(), lr.train()
             return gpytorch.mlls.VariationalELBO(lr, mr, num_data=NUM_DATA)(mr(x[tuple(rep["d1"])]), y[tuple(rep["b"])])
-        for which, (mode, key) in enumerate([("q(f)-mean", "b"), ("q(f)-covariance", "b"), ("kl", "p"), ("elbo", "b")]):
+        for which, (mode, key) in enumerate([("q(f)-mean", "b"), ("q(f)-covariance", "b"), ("kl", "b"), ("elbo", "b")]):
             if not ok:
                 out.append(_result("svgp", name, mode, case, seed, "raises", "the batched model raises %s" % res, len(case["reps"])))
                 continue
@@ -778,12 +785,18 @@ def run(ck):
         "exact GP: P = batch shape of mean, kernel and likelihood, D1 = batch shape of the training inputs, D2 = of the test inputs; the targets "
         "have batch shape broadcast(P, D1)",
         "SVGP: P = batch shape of the variational distribution and the hyperparameters, D1 = of the inputs, D2 = of the inducing points; the "
-        "whitened KL has batch shape P",
+        "KL term is stored with the batch shape of what it depends on and is compared after broadcasting it to the output batch",
+        "the mean of a likelihood marginal may be stored un-broadcast; it is compared after broadcasting it to the batch shape of the covariance",
+        "k(x1) and k(x1, diag=True) (x2 omitted) are evaluated under no_grad: with parameters that require grad the zero distance of a point "
+        "to itself carries sqrt(eps) rounding noise (1e-8) in non-squared-distance kernels, batched or not",
         "IndependentModelList: the three members have batch shapes P, D1, D2; SumMarginalLogLikelihood broadcasts their mlls",
         "derivative kernels (RBFKernelGrad, ...), structured kernels (Grid*, InducingPoint), HammingIMQ and the deprecated last_dim_is_batch "
         "kernels are not claimed batch-broadcast capable and are not replayed",
     ]
-    ck.exhaustive = True
+    ck.exhaustive = thorough
+    ck.explanation = ("TLC enumerates the 2197 triples exhaustively in both tiers (1021 broadcast, 1176 are rejected); thorough replays every module "
+                      "and mode on every triple and every element, quick does so for %d kernels, the means and the likelihood, and replays the "
+                      "other kernels and the models on a seeded subset of the triples (every element of each)" % len(QUICK_FULL_KERNELS))
     import time
     timing = {}
     t0 = time.time()
@@ -848,7 +861,9 @@ def run(ck):
             continue
         name, mode, P, D1, D2 = cell
         sites = kernel_sites(name, mode)
-        bad_sites = [s for s in sites if pred_of[(P, D1, D2)][s] != "ok"]
+        bad_sites = [s for s in sites if pred_of[(P, D1, D2)][s] != "ok"
+                     # diag of k(x, x): the distance is exactly 0 and a mis-aligned alpha cannot change a value, only the shape
+                     and not (mode == "diag-self" and s == "rq_alpha_diag" and pred_of[(P, D1, D2)][s] == "values")]
         for s in (bad_sites or ["<no site predicts a failure>"]):
             e = conf.setdefault(s, dict(predicted_and_failed=0, predicted_but_passed=0, unpredicted_failure=0, examples=[]))
             if bad_sites and not r["ok"]:
